@@ -48,6 +48,8 @@ def run(ctx):
     ctx.rule(reseed_first)
     ctx.rule(order, tool)
     ctx.rule(computer_reuse)
+    ctx.rule(items_independent)
+    ctx.rule(outputs_never_read, tool)
 
 
 def membership_over_text(ctx, tool, R="R-C10-manifest-exact"):
@@ -91,6 +93,97 @@ def computer_reuse(ctx, R="R-C10-seed-process-independent"):
     prog = ctx.prog
     for cname in ("compute.ShortTimeFourierTransformFrameComputer", "compute.ShortIntegrationFrameComputer"):
         c04.reset(ctx, prog.cls(cname), R)
+
+
+def items_independent(ctx, R="R-C10-seed-process-independent"):
+    """Which utterances one dataset object serves depends on --num-workers (each worker has its own copy) and on what a resumed
+    run has left to do.  An item is the same whatever was served before it only if serving an item leaves the dataset's own
+    fields alone: a store to ``self.<field>`` in ``__getitem__`` (or a method it calls on itself) is state that leaks from one
+    utterance into the next one handled by the same process."""
+    from . import c04
+    prog = ctx.prog
+    ds = prog.cls("command_line._FeatureProcessorDataset")
+    gi = prog.find_method(ds, "__getitem__")
+    ctx.need(gi is not None, R, "_FeatureProcessorDataset.__getitem__ not found")
+    what = "serving an utterance does not change the dataset object (items do not depend on which items the same process served before)"
+    n = 0
+    for g in c04.closure(prog, gi):
+        if g.name == "__init__":
+            continue
+        for attr, kind, node in c04.attr_writes(g):
+            n += 1
+            ctx.bad(R, g, node, "%s stores to self.%s while an utterance is served: the next utterance handled by the same process sees the new value, so its "
+                    "result depends on how --num-workers (or a resumed run) grouped the utterances" % (g.short, attr), what, robust=True)
+    if not n:
+        ctx.ok(R, gi.loc(), what, "%d method(s) inspected, no store to the object's fields" % len(c04.closure(prog, gi)))
+
+
+_READS = {"torch.load", "numpy.load", "numpy.fromfile", "pickle.load", "pydrobert.speech.util.read_signal", "numpy.loadtxt", "numpy.memmap"}
+_PATH_ONLY = {"os.path.join", "os.path.abspath", "os.path.normpath", "os.path.realpath", "os.fspath", "str", "pathlib.Path", "os.path.expanduser"}
+
+
+def outputs_never_read(ctx, tool, R="R-C10-filter-before-work"):
+    """A feature file that is on disk but not listed in the manifest is what an interrupted write leaves behind: it may be empty or
+    cut short.  Recovery replaces it; anything that first reads it back (to compare, to validate) fails on exactly the files
+    recovery exists for, and fails again on every re-run.  Effect rule: no deserialising call in the tool takes a path built from
+    the output directory, unless a handler that catches its failure surrounds it."""
+    prog = ctx.prog
+    what = "feature files left in the output directory are replaced, never read back"
+    tainted = set()
+
+    def mentions(e):
+        for x in ast.walk(e):
+            if isinstance(x, ast.Attribute) and x.attr == "dir" and astq.is_name(x.value, "options"):
+                return True
+            if isinstance(x, ast.Name) and x.id in tainted:
+                return True
+        return False
+    changed = True
+    while changed:
+        changed = False
+        for n in tool.body_nodes():
+            tg = []
+            if isinstance(n, ast.Assign) and mentions(n.value):
+                tg = [x for t in n.targets for x in astq.flatten_targets(t)]
+            elif isinstance(n, (ast.For, ast.comprehension)) and mentions(n.iter):
+                tg = astq.flatten_targets(n.target)
+            elif isinstance(n, ast.NamedExpr) and mentions(n.value):
+                tg = [n.target]
+            elif isinstance(n, ast.withitem) and n.optional_vars is not None and mentions(n.context_expr):
+                tg = astq.flatten_targets(n.optional_vars)
+            for t in tg:
+                if isinstance(t, ast.Name) and t.id not in tainted:
+                    tainted.add(t.id)
+                    changed = True
+    pm = astq.parents(tool)
+    n_calls = 0
+    for c in astq.func_calls(tool):
+        q = prog.qualify(tool.module, c.func, tool)
+        is_read = q in _READS
+        if q == "open" or (q is None and astq.is_name(c.func, "open")):
+            mode = c.args[1] if len(c.args) > 1 else astq.kw(c, "mode")
+            is_read = mode is None or (isinstance(mode, ast.Constant) and isinstance(mode.value, str) and not set(mode.value) & set("wxa"))
+        if isinstance(c.func, ast.Attribute) and c.func.attr in ("read_bytes", "read_text") and mentions(c.func.value):
+            is_read = True
+        if not is_read:
+            continue
+        n_calls += 1
+        args = list(c.args) + [k.value for k in c.keywords] + ([c.func.value] if isinstance(c.func, ast.Attribute) and c.func.attr.startswith("read_") else [])
+        if not any(mentions(a) for a in args):
+            continue
+        guarded = False
+        for a in astq.ancestors(pm, c):
+            if isinstance(a, ast.Try) and any(c in list(ast.walk(st)) for st in a.body):
+                for h in a.handlers:
+                    names = [] if h.type is None else [astq.text(x) for x in (h.type.elts if isinstance(h.type, ast.Tuple) else [h.type])]
+                    if h.type is None or any(x in ("Exception", "BaseException") for x in names):
+                        if not any(isinstance(x, ast.Raise) for st in h.body for x in ast.walk(st)):
+                            guarded = True
+        if guarded:
+            continue
+        ctx.bad(R, tool, c, "`%s` reads a file of the output directory back; a file left there by an interrupted write is cut short, the call raises on it, and "
+                "the re-run that should replace it stops at that utterance every time" % astq.text(c)[:80], what, robust=True)
+    ctx.ok(R, tool.loc(), what, "%d reading call(s) inspected; names carrying an output path: %s" % (n_calls, ", ".join(sorted(tainted)) or "none"))
 
 
 def _is_manifest(n):
